@@ -322,7 +322,7 @@ def run_bfs(unit):
     first = unit.get("first")  # optional: restrict to histories starting with these ops
     seen = set()
     w0, t0 = build([], limit, False, api)
-    init_canon = canon(w0, t0)
+    init_canon = (canon(w0, t0), frozenset())
     w0.close()
     frontier = [[]]
     if first is not None:
@@ -382,8 +382,15 @@ def run_bfs(unit):
                     )
                 if vlist:
                     continue  # an error state is reported, not expanded
-                if can_s not in seen:
-                    seen.add(can_s)
+                # the visited-set key also carries which kinds of operation were used since the last reopen: an
+                # implementation may keep in-memory state (counters, memo tables) that the directory does not show,
+                # so "same directory + same model" reached through different kinds of operation is kept apart
+                kinds = []
+                for o in hist + [op]:
+                    kinds = [] if o[0] == "reopen" else kinds + [o[0]]
+                vkey = (can_s, frozenset(kinds))
+                if vkey not in seen:
+                    seen.add(vkey)
                     states += 1
                     nxt.append(hist + [op])
                     if len(c.samples) < 2 and len(hist) + 1 == depth:
